@@ -142,6 +142,10 @@ func VerifC07Template() {
 		c := err.Cause()
 		nd.Assert(c != nil && strings.Contains(c.Error(), "division by zero"), "cause-is-the-filter-error")
 	}
+	if f.src == "{% assign = %}" || f.src == "{{ 1 + }}" || f.src == "{% if false %}\n{% elsif 1 | %}y{% endif %}" {
+		// a syntax error in an expression is the wrapped error, in a plain tag as in a block or an object
+		nd.Assert(err.Cause() != nil, "cause-is-the-syntax-error")
+	}
 	nd.Assert(err.Path() == path, "path-is-parse-path")
 	if nd.IsConcrete(start) {
 		nd.Assert(strings.Contains(err.Error(), f.word) || (f.word == "convert" && (strings.Contains(err.Error(), "abc") || strings.Contains(err.Error(), "type"))), "message-names-problem")
